@@ -1,6 +1,16 @@
-"""Positive fixture for the F-NAME lint (never imported by anything): one function per idiom, expected verdict in its name."""
+"""Positive fixture for the F-NAME lint (never imported by anything): one function per idiom, expected verdict in its name.
+
+`unsafe_*` must yield at least one unsafe site, `safe_*` / `_safe_*` only safe (or not armed) ones; helpers named `_unsafe_*` /
+`_helper_*` are unconstrained. The functions are analysed as a tiny repository of their own (rules/names.py: fixture_selfcheck).
+"""
+
+import re
 
 Node = str
+SEPARATOR = "."
+
+
+# ----------------------------------------------------------------------------- raw prefix / substring relations
 
 
 def unsafe_raw_prefix(module: Node, other: Node) -> bool:
@@ -21,6 +31,75 @@ def unsafe_replace(module: Node, other: Node) -> str:
     return module.replace(other, "alias")
 
 
+def unsafe_prefix_from_sorted_collection(module: Node, listed: list[Node]) -> list[str]:
+    found = []
+    candidates = sorted(listed)
+    idx = len(candidates) - 1
+    while idx >= 0:
+        candidate = candidates[idx]
+        if module.startswith(candidate):
+            found.append(candidate)
+        idx -= 1
+    return found
+
+
+def unsafe_prefix_plus_depth(module: Node, other: Node) -> bool:
+    depth = module.count(".")
+    return module.startswith(other) and other.count(".") < depth
+
+
+def unsafe_closure_any(modules: list[Node]) -> list[str]:
+    names = {m for m in modules}
+
+    def has_parent(identifier: str) -> bool:
+        return any(identifier != name and identifier.startswith(name) for name in names)
+
+    return [m for m in modules if not has_parent(m)]
+
+
+class _Holder:
+    def _helper_first_searched(self, module: Node, searched: dict[Node, list[str]]) -> str | None:
+        for searched_module in searched:
+            if self.unsafe_is_part_of_method(module, searched_module):
+                return searched_module
+        return None
+
+    @classmethod
+    def unsafe_is_part_of_method(cls, module_name: str, parent_module_name: str) -> bool:
+        return module_name.startswith(parent_module_name)
+
+
+def _helper_first_searched(module: Node, searched: dict[Node, list[str]]) -> str | None:
+    for searched_module in searched:
+        if unsafe_is_part_of_function(module, searched_module):
+            return searched_module
+    return None
+
+
+def unsafe_is_part_of_function(module_name: str, parent_module_name: str) -> bool:
+    return module_name.startswith(parent_module_name)
+
+
+def unsafe_joined_prefix(module: Node, other: Node, level: int) -> bool:
+    return module.startswith(".".join(other.split(".")[: level + 1]))
+
+
+def unsafe_suffix(module: Node, other: Node) -> bool:
+    return module.endswith(other)
+
+
+def unsafe_find_is_zero(module: Node, other: Node) -> bool:
+    return module.find(other) == 0
+
+
+def unsafe_regex_from_name(module: Node, other: Node) -> bool:
+    return re.match(rf"^{other}", module) is not None
+
+
+def unsafe_escaped_regex_without_boundary(module: Node, other: Node) -> bool:
+    return re.match(re.escape(other), module) is not None
+
+
 def safe_dotted_prefix(module: Node, other: Node) -> bool:
     return module == other or module.startswith(other + ".")
 
@@ -28,6 +107,38 @@ def safe_dotted_prefix(module: Node, other: Node) -> bool:
 def safe_fstring_prefix(module: Node, other: Node) -> bool:
     prefix = f"{other}."
     return module.startswith(prefix)
+
+
+def safe_constant_separator(module: Node, other: Node) -> bool:
+    return module == other or module.startswith(other + SEPARATOR)
+
+
+def safe_tuple_of_prefixes(module: Node, first: Node, second: Node) -> bool:
+    return module.startswith((first + ".", f"{second}."))
+
+
+def safe_prefix_built_by_caller(module: Node, other: Node) -> bool:
+    return module == other or _helper_has_prefix(module, other + ".")
+
+
+def _helper_has_prefix(module: str, prefix: str) -> bool:
+    return module.startswith(prefix)
+
+
+def safe_prefixes_in_tuples(modules: list[Node], aliases: dict[Node, str]) -> dict[str, str]:
+    replacements = [(name, f"{name}.", aliases[name]) for name in sorted(aliases, key=len, reverse=True)]
+    labels = {}
+    for module in modules:
+        labels[module] = _safe_apply(module, replacements)
+    return labels
+
+
+def _safe_apply(module_name: str, replacements: list[tuple[str, str, str]]) -> str:
+    for aliased, prefix, alias in replacements:
+        if module_name != aliased and not module_name.startswith(prefix):
+            continue
+        return alias + module_name[len(aliased):]
+    return module_name
 
 
 def safe_slice_after_boundary_test(module: Node, other: Node) -> str:
@@ -48,6 +159,23 @@ def _safe_is_part_of(module: Node, other: Node) -> bool:
     return module.startswith(other + ".")
 
 
+def safe_slice_in_helper(module: Node, other: Node) -> str:
+    if module == other or module.startswith(other + "."):
+        return "x" + _safe_rest(module, other)
+    return module
+
+
+def _safe_rest(name: Node, ancestor: Node) -> str:
+    return name[len(ancestor):]
+
+
+def safe_slice_by_stored_length(module: Node, other: Node) -> str:
+    if not (module == other or module.startswith(other + ".")):
+        return module
+    skip = len(other)
+    return "x" + module[skip:]
+
+
 def safe_remainder_predicate(module: Node, other: Node) -> bool:
     if not module.startswith(other):
         return False
@@ -55,6 +183,184 @@ def safe_remainder_predicate(module: Node, other: Node) -> bool:
     return rest == "" or rest[0] == "."
 
 
+def safe_next_character(module: Node, other: Node) -> bool:
+    return module == other or (module.startswith(other) and module[len(other)] == ".")
+
+
 def safe_components(module: Node, other: Node) -> bool:
     parts = other.split(".")
     return module.split(".")[: len(parts)] == parts
+
+
+def safe_dotted_suffix(module: Node, other: Node) -> bool:
+    return module == other or module.endswith(f".{other}")
+
+
+def safe_escaped_regex_with_boundary(module: Node, other: Node) -> bool:
+    return re.match(re.escape(other) + r"(\.|$)", module) is not None
+
+
+def safe_lexical_tests(module: Node) -> bool:
+    return module.startswith("_") or module.endswith("__init__") or "-" in module
+
+
+def safe_first_component_is_private(module: Node) -> bool:
+    return module.split(".")[-1].startswith("_")
+
+
+# ----------------------------------------------------------------------------- cutting names at an index
+
+
+def unsafe_rfind_walk(module: Node, layers: dict[str, str]) -> set[str]:
+    found = set()
+    parent = module[: module.rfind(".")]
+    while parent:
+        if parent in layers:
+            found.add(layers[parent])
+        parent = parent[: parent.rfind(".")]
+    return found
+
+
+def unsafe_find_cut(module: Node) -> str:
+    return module[: module.find(".")]
+
+
+def unsafe_every_prefix(module: Node, layers: dict[str, str]) -> list[str]:
+    return [layers[module[:i]] for i in range(len(module)) if module[:i] in layers]
+
+
+def unsafe_enumerate_without_test(module: Node) -> list[str]:
+    return [module[:idx] for idx, _char in enumerate(module)]
+
+
+def unsafe_cut_at_other_name(module: Node, other: Node) -> str:
+    return module[module.find(other):]
+
+
+def safe_rfind_guarded_by_membership(module: Node) -> str:
+    if "." in module:
+        return module[: module.rfind(".")]
+    return ""
+
+
+def safe_rfind_guarded_by_index(module: Node) -> str:
+    idx = module.rfind(".")
+    if idx == -1:
+        return ""
+    return module[:idx]
+
+
+def safe_rfind_walk(module: Node) -> list[str]:
+    parents = []
+    parent = module
+    while "." in parent:
+        parent = parent[: parent.rfind(".")]
+        parents.append(parent)
+    return parents
+
+
+def safe_last_component(module: Node) -> str:
+    return module[module.rfind(".") + 1 :]
+
+
+def safe_rindex_cut(module: Node) -> str:
+    return module[: module.rindex(".")]
+
+
+def safe_enumerate_cut(module: Node) -> list[str]:
+    return [module[:idx] for idx, character in enumerate(module) if character == "."]
+
+
+def safe_enumerate_loop_cut(module: Node) -> list[str]:
+    out = []
+    for position, char in enumerate(module):
+        if char != ".":
+            continue
+        out.append(module[:position])
+    return out
+
+
+def safe_rpartition_walk(module: Node) -> list[str]:
+    parents = []
+    head = module.rpartition(".")[0]
+    while head:
+        parents.append(head)
+        head = head.rpartition(".")[0]
+    return parents
+
+
+def safe_rsplit_parent(module: Node) -> str:
+    return module.rsplit(".", 1)[0]
+
+
+# ----------------------------------------------------------------------------- separators
+
+
+def unsafe_split_at_underscore(module: Node) -> list[str]:
+    return module.split("_")
+
+
+def unsafe_partition_at_dash(module: Node) -> str:
+    return module.partition("-")[0]
+
+
+def unsafe_join_without_separator(module: Node, level: int) -> str:
+    return "".join(module.split(".")[:level])
+
+
+def unsafe_join_with_slash(module: Node, level: int) -> str:
+    parts = module.split(".")
+    return "/".join(parts[: level + 1])
+
+
+def unsafe_characters(module: Node) -> list[str]:
+    parents = []
+    current: list[str] = []
+    for char in module:
+        if char in "._":
+            parents.append("".join(current))
+        current.append(char)
+    return parents
+
+
+def safe_characters(module: Node) -> list[str]:
+    parents = []
+    current: list[str] = []
+    for char in module:
+        if char == ".":
+            parents.append("".join(current))
+        current.append(char)
+    return parents
+
+
+def safe_flatten(module: Node, level: int) -> str:
+    parts = module.split(".")
+    return ".".join(parts[: level + 1])
+
+
+def safe_flatten_with_decorated_components(module: Node, level: int) -> str:
+    head, *rest = module.split(".")
+    return head + "".join(f".{component}" for component in rest[:level])
+
+
+def safe_ancestors_by_components(module: Node) -> list[str]:
+    components = module.split(".")
+    return [".".join(components[:level]) for level in range(1, len(components))]
+
+
+def safe_message_from_components(module: Node) -> str:
+    return ", ".join(repr(component) for component in module.split("."))
+
+
+# ----------------------------------------------------------------------------- extent of a component-wise comparison
+
+
+def unsafe_zip_truncates(module: Node, prefix: Node) -> bool:
+    prefix_components = prefix.rstrip(".").split(".")
+    return all(component == expected for component, expected in zip(module.split("."), prefix_components))
+
+
+def safe_zip_with_length_test(module: Node, prefix: Node) -> bool:
+    components = module.split(".")
+    expected_components = prefix.split(".")
+    return len(components) >= len(expected_components) and all(a == b for a, b in zip(components, expected_components))
